@@ -101,17 +101,22 @@ def composite(sds, uid):
     return f"{sds}{SEP}{uid}"
 
 
-def gen_case(rng, backend, ties: bool, dfs=None):
-    k = rng.choice([2, 2, 3, 3, 4])
-    names = rng.sample(["a", "b", "c", "d", "ds_x", "Bq"], k)
-    nodes = []
-    uid_pool = rng.sample([1, 2, 3, 7, 9, 10, 11, 20, 21, 100, 101, 5, 30], 13)
-    shared_uids = rng.random() < 0.5            # same unique_id values reused across datasets
-    for ds in names:
-        n = rng.randint(1, 4 if k <= 3 else 3)
-        ids = rng.sample(uid_pool, n) if shared_uids else [uid_pool.pop() for _ in range(n)]
-        nodes += [(ds, int(u)) for u in ids]
-    rng.shuffle(nodes)
+def gen_case(rng, backend, ties: bool, dfs=None, fixed=None):
+    """fixed = (names, nodes): new predictions over the records of an earlier call."""
+    if fixed is not None:
+        names, nodes = fixed[0], list(fixed[1])
+        k = len(names)
+    else:
+        k = rng.choice([2, 2, 3, 3, 4])
+        names = rng.sample(["a", "b", "c", "d", "ds_x", "Bq"], k)
+        nodes = []
+        uid_pool = rng.sample([1, 2, 3, 7, 9, 10, 11, 20, 21, 100, 101, 5, 30], 13)
+        shared_uids = rng.random() < 0.5            # same unique_id values reused across datasets
+        for ds in names:
+            n = rng.randint(1, 4 if k <= 3 else 3)
+            ids = rng.sample(uid_pool, n) if shared_uids else [uid_pool.pop() for _ in range(n)]
+            nodes += [(ds, int(u)) for u in ids]
+        rng.shuffle(nodes)
     n = len(nodes)
     allow_within = rng.random() < 0.5
     pairs = [(i, j) for i in range(n) for j in range(i + 1, n) if allow_within or nodes[i][0] != nodes[j][0]]
@@ -146,12 +151,47 @@ def gen_case(rng, backend, ties: bool, dfs=None):
     if edges and rng.random() < 0.35:             # an edge exactly at the threshold (>= vs >)
         t = rng.choice(edges)[2]
         thr = t
+    thr_weight = None
+    if rng.random() < 0.25:
+        # threshold given as a match weight (integer or fractional); the model uses the exact value
+        # of the implementation's own conversion; often one edge sits exactly on it
+        thr_weight = rng.choice([-2, -1, 0, 0, 1, 2, 3, 0.5, -0.75, 1.25, 2.5])
+        thr = weight_to_prob(thr_weight)
+        if edges and rng.random() < 0.6:
+            x = rng.randrange(len(edges))
+            if not ties and any(fr(p) == fr(thr) for _, _, p in edges):
+                pass
+            else:
+                edges[x] = (edges[x][0], edges[x][1], thr)
     if dfs is None:
         subsets = [s for r in range(1, k + 1) for s in itertools.combinations(names, r)]
         dfs = list(rng.choice(subsets))
     form = rng.choice(["single", "single", "multi"])
-    return {"backend": backend, "names": names, "nodes": nodes, "edges": edges, "thr": thr,
+    return {"backend": backend, "names": names, "nodes": nodes, "edges": edges, "thr": thr, "thr_weight": thr_weight,
             "dfs": list(dfs), "form": form, "ties_wanted": ties}
+
+
+def gen_history(rng, backend):
+    """2-3 clusterings on ONE linker; the predictions are re-registered under the same name
+    (register_table_predict(..., overwrite=True)) before every call, mostly with the same threshold
+    and duplicate-free datasets.  The output of a call is kept alive unless a later call has the same
+    threshold and duplicate-free datasets (that combination is KF-C12-history-stale-output and is
+    exercised by its own witness)."""
+    base = gen_case(rng, backend, ties=rng.random() < 0.3)
+    calls = [base]
+    for _ in range(rng.choice([1, 1, 2])):
+        c = gen_case(rng, backend, ties=rng.random() < 0.3, fixed=(base["names"], base["nodes"]))
+        c["form"] = base["form"]
+        if rng.random() < 0.8:
+            c["thr"], c["thr_weight"] = base["thr"], base["thr_weight"]
+        if rng.random() < 0.7 or not set(c["dfs"]) <= set(base["names"]):
+            c["dfs"] = list(base["dfs"])
+        if rng.random() < 0.15:
+            c["edges"] = list(calls[-1]["edges"])          # the same predictions again
+        calls.append(c)
+    key = [(json.dumps(c["thr"]), c["thr_weight"], tuple(c["dfs"])) for c in calls]
+    keep = [rng.random() < 0.6 and key[i] not in key[i + 1:] for i in range(len(calls))]
+    return {"calls": calls, "keep_output": keep}
 
 
 def has_dup_pairs(case):
@@ -167,18 +207,21 @@ def tie_free(case):
 
 
 # --------------------------------------------------------------------------------------------
-def run_impl(case):
-    """Returns (trace, final): trace = list of {node_id: representative} per captured
-    __splink__df_representatives_N; final = list of (cluster_id, source_dataset, unique_id)."""
+def run_history(cases, keep_output=None):
+    """All cases share records/backend/form and run on ONE linker, each after re-registering its
+    predictions under the same name.  Returns [(trace, final)] per call; trace = captured
+    __splink__df_representatives_N tables; final = (cluster_id, source_dataset, unique_id) rows."""
     from splink import Linker, SettingsCreator
-    names, nodes = case["names"], case["nodes"]
-    api = su.make_api(case["backend"])
-    if case.get("threads") and case["backend"] == "duckdb":
-        api._con.execute(f"SET threads TO {int(case['threads'])}")
-    trace = []
+    first = cases[0]
+    names, nodes = first["names"], first["nodes"]
+    api = su.make_api(first["backend"])
+    if first.get("threads") and first["backend"] == "duckdb":
+        api._con.execute(f"SET threads TO {int(first['threads'])}")
+    cur = {"case": first, "trace": []}
     orig = api.sql_pipeline_to_splink_dataframe
 
     def wrapped(pipeline, use_cache=True):
+        case = cur["case"]
         for cte in getattr(pipeline, "queue", []):
             if re.fullmatch(r"__splink__df_ranked_\d+", cte.output_table_name or ""):
                 m = order_mode(cte.sql)
@@ -187,11 +230,11 @@ def run_impl(case):
         d = orig(pipeline, use_cache)
         if re.fullmatch(r"__splink__df_representatives_\d+", d.templated_name):
             rows = d.as_record_dict()
-            trace.append({"rows": [(r["node_id"], r["representative"], r["source_dataset"], bool(r["needs_updating"])) for r in rows]})
+            cur["trace"].append({"rows": [(r["node_id"], r["representative"], r["source_dataset"], bool(r["needs_updating"])) for r in rows]})
         return d
     api.sql_pipeline_to_splink_dataframe = wrapped
     s = SettingsCreator(link_type="link_only", comparisons=[], blocking_rules_to_generate_predictions=[])
-    if case["form"] == "single" or len({ds for ds, _ in nodes}) < 2:
+    if first["form"] == "single" or len({ds for ds, _ in nodes}) < 2:
         df = pd.DataFrame({"unique_id": [u for _, u in nodes], "source_dataset": [ds for ds, _ in nodes]})
         lk = Linker(df, s, api)
     else:
@@ -199,15 +242,27 @@ def run_impl(case):
         tabs = [pd.DataFrame({"unique_id": [u for d, u in nodes if d == ds]}) for ds in present]
         lk = Linker(tabs, s, api, input_table_aliases=present)
     su.quiet()
-    e = case["edges"]
-    pred = pd.DataFrame({
-        "unique_id_l": [nodes[i][1] for i, _, _ in e], "unique_id_r": [nodes[j][1] for _, j, _ in e],
-        "source_dataset_l": [nodes[i][0] for i, _, _ in e], "source_dataset_r": [nodes[j][0] for _, j, _ in e],
-        "match_probability": [float(fr(p)) for _, _, p in e]})
-    dp = lk.table_management.register_table_predict(pred, overwrite=True)
-    out = lk.clustering.cluster_using_single_best_links(dp, duplicate_free_datasets=list(case["dfs"]), **threshold_kwargs(case))
-    final = [(r["cluster_id"], r["source_dataset"], r["unique_id"]) for r in out.as_record_dict()]
-    return trace, final
+    results, kept = [], []
+    for k, case in enumerate(cases):
+        cur["case"], cur["trace"] = case, []
+        e = case["edges"]
+        pred = pd.DataFrame({
+            "unique_id_l": [nodes[i][1] for i, _, _ in e], "unique_id_r": [nodes[j][1] for _, j, _ in e],
+            "source_dataset_l": [nodes[i][0] for i, _, _ in e], "source_dataset_r": [nodes[j][0] for _, j, _ in e],
+            "match_probability": [float(fr(p)) for _, _, p in e]})
+        dp = lk.table_management.register_table_predict(pred, overwrite=True)
+        out = lk.clustering.cluster_using_single_best_links(dp, duplicate_free_datasets=list(case["dfs"]), **threshold_kwargs(case))
+        final = [(r["cluster_id"], r["source_dataset"], r["unique_id"]) for r in out.as_record_dict()]
+        results.append((cur["trace"], final))
+        if keep_output is not None and not keep_output[k]:
+            out.drop_table_from_database_and_remove_from_cache()
+        else:
+            kept.append(out)
+    return results
+
+
+def run_impl(case):
+    return run_history([case])[0]
 
 
 # --------------------------------------------------------------------------------------------
@@ -444,7 +499,8 @@ def case_term(case, trace, final):
 
 
 def features_of(case, kind):
-    return {"kind": kind, "ties": not tie_free(case), "backend": case["backend"], "duplicate_pair_rows": has_dup_pairs(case)}
+    return {"kind": kind, "ties": not tie_free(case), "backend": case["backend"], "duplicate_pair_rows": has_dup_pairs(case),
+            "threshold_as_weight": case.get("thr_weight") is not None}
 
 
 def shrink(case, fails):
@@ -532,6 +588,33 @@ def known_witnesses(ctx: Ctx):
         ctx.expect_known("FX-C12-ties-disconnected", False, "the witness yields connected clusters")
 
 
+# KF-C12-history-stale-output: same predictions name, same threshold and duplicate-free datasets, same
+# number of iterations, first result still alive -> the second call returns the first call's clusters
+HIST_WITNESS = {"backend": "duckdb", "names": ["a", "b"], "nodes": [("a", 0), ("b", 1), ("a", 2), ("b", 3)],
+                "thr": 512, "thr_weight": None, "dfs": ["a", "b"], "form": "single", "ties_wanted": False}
+
+
+def history_witness(ctx: Ctx):
+    for backend in ("duckdb", "sqlite"):
+        c1 = dict(HIST_WITNESS, backend=backend, edges=[(0, 1, 900)])
+        c2 = dict(HIST_WITNESS, backend=backend, edges=[(2, 3, 900)])
+        res = run_history([c1, c2], [True, True])
+        trace, final = res[1]
+        info, problems = case_term(c2, trace, final)
+        problems = oracle(c2, final) + problems
+        ctx.cov["evaluations"] += 1
+        if problems:
+            rep = describe(c2, trace, final, info)
+            rep["history"] = {"calls": [c1, c2], "keep_output": [True, True]}
+            rep["failing_call"] = 1
+            rep["failure"] = {"kind": problems[0][0], "detail": problems[0][1]}
+            ctx.violation("cluster_using_single_best_links depends on the linker's history: after re-registering the predictions "
+                          f"the second call returns the first call's clusters while the first result is alive ({backend})", rep,
+                          {"kind": "history_stale_output", "history": True, "outputs_kept": True, "backend": backend})
+        else:
+            ctx.expect_known("KF-C12-history-stale-output", False, "the second call now returns its own clusters")
+
+
 def correspondence(ctx: Ctx):
     quick = ctx.quick
     plan = [("duckdb", False, 110 if quick else 1500), ("duckdb", True, 110 if quick else 1500),
@@ -557,9 +640,28 @@ def correspondence(ctx: Ctx):
         rep["failure"] = {"kind": kind, "detail": detail}
         ctx.violation(f"cluster_using_single_best_links: {kind} ({case['backend']}, {'ties' if f['ties'] else 'tie-free'})", rep, f)
 
-    def one(case):
+    hists = []
+
+    def report_hist(case, kind, detail, trace, final, info):
+        """A call inside a multi-call history fails: the replay is the history up to that call."""
+        h = hists[case["_hist"]["id"]]
+        k = case["_hist"]["k"]
+        f = dict(features_of(case, kind), history=True, calls_on_linker=k + 1,
+                 outputs_kept=any(h["keep_output"][:k]))
+        key = json.dumps(f, sort_keys=True)
+        if key in reported:
+            return
+        reported.add(key)
+        rep = describe(case, trace, final, info)
+        rep["history"] = {"calls": h["calls"][:k + 1], "keep_output": h["keep_output"][:k + 1]}
+        rep["failing_call"] = k
+        rep["failure"] = {"kind": kind, "detail": detail}
+        ctx.violation(f"cluster_using_single_best_links: {kind} in call {k + 1} on one linker after re-registering the predictions "
+                      f"({case['backend']})", rep, f)
+
+    def one(case, result=None):
         nonlocal skipped_steps
-        trace, final = run_impl(case)
+        trace, final = result if result is not None else run_impl(case)
         info, problems = case_term(case, trace, final)
         problems = oracle(case, final) + problems
         tf = tie_free(case)
@@ -576,7 +678,7 @@ def correspondence(ctx: Ctx):
         ctx.hist("form", case["form"])
         ctx.hist("duplicate_pair_rows", has_dup_pairs(case))
         for kind, detail in problems:
-            report(case, kind, detail, trace, final, info)
+            (report_hist if "_hist" in case else report)(case, kind, detail, trace, final, info)
         if info is not None:
             skipped_steps += sum(1 for c in info["checked_steps"] if not c)
             terms.append(info["term"])
@@ -586,6 +688,17 @@ def correspondence(ctx: Ctx):
         for _ in range(cnt):
             case = gen_case(ctx.rng, backend, ties)
             one(case)
+    # histories: several clusterings on one linker with re-registered predictions
+    for backend in ("duckdb", "sqlite"):
+        for _ in range(30 if quick else 300):
+            h = gen_history(ctx.rng, backend)
+            hists.append(h)
+            res = run_history(h["calls"], h["keep_output"])
+            ctx.hist("calls_per_linker", len(h["calls"]))
+            for k, (c, r) in enumerate(zip(h["calls"], res)):
+                c["_hist"] = {"id": len(hists) - 1, "k": k}
+                ctx.hist("history_output_kept", h["keep_output"][k])
+                one(c, r)
     # every non-empty subset of the datasets declared duplicate-free on one graph per size
     for k, backend in ((2, "duckdb"), (3, "sqlite"), (4, "duckdb"), (3, "duckdb"), (4, "sqlite")):
         base = None
@@ -644,11 +757,13 @@ def correspondence(ctx: Ctx):
                    not bad and not errs)
     for i in bad:
         case, trace, final, info = metas[i]
-        report(case, "step_not_allowed_by_model" if not tie_free(case) else "trajectory_differs_from_model",
-               {"checked_steps": info["checked_steps"]}, trace, final, info)
+        (report_hist if "_hist" in case else report)(
+            case, "step_not_allowed_by_model" if not tie_free(case) else "trajectory_differs_from_model",
+            {"checked_steps": info["checked_steps"]}, trace, final, info)
     if errs and not bad:
         ctx.violation("correspondence C12_x could not be evaluated", {"broken": "C12_x", "errors": errs}, found_input=False)
     known_witnesses(ctx)
+    history_witness(ctx)
 
 
 def replay(ctx: Ctx):
@@ -657,7 +772,17 @@ def replay(ctx: Ctx):
     case = d["case"]
     case["nodes"] = [tuple(x) for x in case["nodes"]]
     case["edges"] = [tuple(x) for x in case["edges"]]
-    trace, final = run_impl(case)
+    case.pop("_hist", None)
+    if "history" in d:
+        calls = d["history"]["calls"]
+        for c in calls:
+            c["nodes"] = [tuple(x) for x in c["nodes"]]
+            c["edges"] = [tuple(x) for x in c["edges"]]
+            c.pop("_hist", None)
+        trace, final = run_history(calls, d["history"]["keep_output"])[-1]
+        case = calls[-1]
+    else:
+        trace, final = run_impl(case)
     info, problems = case_term(case, trace, final)
     problems = oracle(case, final) + problems
     ctx.count_case(json.dumps(case, sort_keys=True), True, {"replay": ctx.replay})
